@@ -202,3 +202,92 @@ def run_jobs(ctx, jobs, workers=12, timeout=900):
 
     with ThreadPoolExecutor(max_workers=workers) as ex:
         return list(ex.map(one, enumerate(jobs)))
+
+
+# ------------------------------------------------------------------------------------------------
+# token-level layout variants (same AST, different layout) — appended to `variants` when shift_ok
+# ------------------------------------------------------------------------------------------------
+def _same_ast(a: str, b: str) -> bool:
+    import ast
+    try:
+        return ast.dump(ast.parse(a)) == ast.dump(ast.parse(b))
+    except (SyntaxError, ValueError, RecursionError):
+        return False
+
+
+def layout_variants(code: str):
+    """(name, text): exploded brackets (newline after every opening bracket and comma inside brackets), trailing
+    comments on every logical line, swapped quote style of simple string literals.  Each keeps the AST."""
+    import io
+    import tokenize
+    out = []
+    try:
+        toks = list(tokenize.generate_tokens(io.StringIO(code).readline))
+    except (tokenize.TokenError, IndentationError, SyntaxError):
+        return out
+    lines = code.splitlines(keepends=True)
+
+    def offset(pos):
+        return sum(len(l) for l in lines[:pos[0] - 1]) + pos[1]
+
+    # 1. exploded brackets
+    ins, depth = [], 0
+    in_fstring = 0
+    for t in toks:
+        if t.type == getattr(tokenize, "FSTRING_START", -1):
+            in_fstring += 1
+        elif t.type == getattr(tokenize, "FSTRING_END", -1):
+            in_fstring -= 1
+        if t.type == tokenize.OP and not in_fstring:
+            if t.string in "([{":
+                depth += 1
+                ins.append(offset(t.end))
+            elif t.string in ")]}":
+                depth -= 1
+            elif t.string == "," and depth > 0:
+                ins.append(offset(t.end))
+    if ins:
+        s = code
+        for o in sorted(ins, reverse=True):
+            s = s[:o] + "\n        " + s[o:]
+        if _same_ast(code, s):
+            out.append(("exploded_brackets", s))
+    # 2. trailing comments on logical lines
+    ins = [offset(t.start) for t in toks if t.type == tokenize.NEWLINE and t.string.startswith(("\n", "\r"))]
+    if ins:
+        s = code
+        for o in sorted(set(ins), reverse=True):
+            s = s[:o] + "  # note: keep" + s[o:]
+        if _same_ast(code, s):
+            out.append(("trailing_comments", s))
+    # 3. swapped quotes
+    rep = []
+    for t in toks:
+        if t.type == tokenize.STRING:
+            body = t.string
+            i = 0
+            while i < len(body) and body[i] in "rRbBuU":
+                i += 1
+            q = body[i:i + 3] if body[i:i + 3] in ('"""', "'''") else body[i:i + 1]
+            if len(q) == 1 and body.endswith(q) and len(body) >= i + 2:
+                inner = body[i + 1:-1]
+                other = "'" if q == '"' else '"'
+                if other not in inner and "\\" not in inner:
+                    rep.append((offset(t.start), offset(t.end), body[:i] + other + inner + other))
+    if rep:
+        s = code
+        for a, b, r in sorted(rep, reverse=True):
+            s = s[:a] + r + s[b:]
+        if _same_ast(code, s):
+            out.append(("swapped_quotes", s))
+    return out
+
+
+_variants_basic = variants
+
+
+def variants(code: str, shift_ok: bool):  # noqa: F811
+    out = _variants_basic(code, shift_ok)
+    if shift_ok:
+        out.extend(layout_variants(code if code.endswith("\n") else code + "\n"))
+    return out
